@@ -155,9 +155,7 @@ func ruleR14b(h *H) {
 		f := c.StaticCallee()
 		return f != nil && dels[f]
 	}
-	sessT, sessG := globalValueType(h, "server", "sessionManagerUpdateOperationCallback")
-	idxT, idxG := globalValueType(h, "server", "secondaryIndexesUpdateCallback")
-	wrapT, _ := globalValueType(h, "server", "WrapperUpdateOperationCallback")
+	sessT, sessG, idxT, idxG, wrapT := callbackSingletons(h)
 	if sessT == "" || idxT == "" || wrapT == "" {
 		h.Anchor(rule, "the session / index / wrapper callback singletons of package server")
 		return
@@ -275,7 +273,7 @@ func ruleR14c(h *H) {
 	h.Rule(rule, "K1/K5", "session cleanup issues exactly one write containing the session key delete and the shadow range delete; deletes of keys that were listed outside the batch must be conditional (expected version / ownership re-check inside apply)", 3)
 	n := 0
 	for _, fn := range h.P.Funcs {
-		if fn.Parent() != nil || fn.Signature.Recv() == nil || !ir.TypeIs(fn.Signature.Recv().Type(), "server", "session") {
+		if fn.Parent() != nil || ir.RelPkg(ir.PkgPathOf(fn)) != "server" {
 			continue
 		}
 		writes := h.P.CallsIn(fn, lcWriteBlock)
@@ -393,7 +391,19 @@ func ruleR14d(h *H) {
 	// heartbeat re-arm
 	n := 0
 	for _, fn := range h.P.Funcs {
-		if fn.Signature.Recv() == nil || !ir.TypeIs(fn.Signature.Recv().Type(), "server", "session") {
+		if ir.RelPkg(ir.PkgPathOf(fn)) != "server" {
+			continue
+		}
+		// the expiry timer: created with time.NewTimer(d) and re-armed with Reset(d') in the same function
+		var newTimerArg ssa.Value
+		ir.Instrs(fn, func(in ssa.Instruction) {
+			if c := ir.CallOf(in); c != nil {
+				if f := c.StaticCallee(); f != nil && f.Pkg != nil && f.Pkg.Pkg.Path() == "time" && f.Name() == "NewTimer" {
+					newTimerArg = c.Args[0]
+				}
+			}
+		})
+		if newTimerArg == nil {
 			continue
 		}
 		ir.Instrs(fn, func(in ssa.Instruction) {
@@ -406,11 +416,54 @@ func ruleR14d(h *H) {
 				return
 			}
 			n++
-			ok := ir.LoadsField(c.Args[len(c.Args)-1], "server", "session", "timeout")
-			h.Verdict(ok, rule, "heartbeat re-arms the timer in "+ir.FuncName(fn), h.pos(in), "timer.Reset(session.timeout)", "the expiry timer is re-armed with "+ir.Describe(c.Args[len(c.Args)-1])+" instead of the session's timeout")
+			h.Fn(ir.FuncName(fn))
+			ok := ir.SameExpr(c.Args[len(c.Args)-1], newTimerArg)
+			h.Verdict(ok, rule, "heartbeat re-arms the timer in "+ir.FuncName(fn), h.pos(in), "timer.Reset(<the timeout the timer was created with>)", "the expiry timer is re-armed with "+ir.Describe(c.Args[len(c.Args)-1])+" instead of the session's timeout")
 		})
 	}
 	if n == 0 {
 		h.Anchor(rule, "timer.Reset in the session's heartbeat loop")
 	}
+}
+
+// callbackSingletons finds the wrapper callback (the exported singleton handed to
+// ProcessWrite) and, from the globals its OnPut delegates to, the session callback (its
+// OnPut reaches ShadowKey) and the index callback (the other one).
+func callbackSingletons(h *H) (sessT string, sessG *ssa.Global, idxT string, idxG *ssa.Global, wrapT string) {
+	wrapT, _ = globalValueType(h, "server", "WrapperUpdateOperationCallback")
+	if wrapT == "" {
+		return
+	}
+	fn := h.P.Func("server", wrapT, "OnPut")
+	if fn == nil {
+		return
+	}
+	var globals []*ssa.Global
+	ir.Instrs(fn, func(in ssa.Instruction) {
+		c := ir.CallOf(in)
+		if c == nil || !c.IsInvoke() || c.Method.Name() != "OnPut" {
+			return
+		}
+		if u, ok := ir.Canon(c.Value).(*ssa.UnOp); ok {
+			if g, ok := u.X.(*ssa.Global); ok {
+				globals = append(globals, g)
+			}
+		}
+	})
+	for _, g := range globals {
+		tn, _ := globalValueType(h, "server", g.Name())
+		if tn == "" {
+			continue
+		}
+		m := h.P.Func("server", tn, "OnPut")
+		if m == nil {
+			continue
+		}
+		if ok, _ := h.P.StaticReaches(m, h.P.MatchPred(shadowKeyFn)); ok {
+			sessT, sessG = tn, g
+		} else {
+			idxT, idxG = tn, g
+		}
+	}
+	return
 }
